@@ -487,6 +487,7 @@ def conc_corpus():
         "conc corpus_orphan_put2\ncfg kt=bytes n=100\norphan 5858\nthread 1 delorphans\nthread 2 put 6b 5858\nsched 1 1 2 2 2 2 2 2 1 1 1 1 2 2 2 2 2 2\nend\n",
         "conc corpus_share\ncfg kt=bytes n=2\nsetup put 6b31 5858\nthread 1 put 6b32 5858\nthread 2 put 6b31 5a5a\nsched 1 1 1 1 2 2 2 2 2 2 2 2 2 2 2 2 1 1 1 1 1 1 1 1\nend\n",
         "conc corpus_rm_put\ncfg kt=bytes n=100\nsetup put 6b31 5858\nthread 1 remove 6b31\nthread 2 put 6b32 5858\nsched 2 2 2 1 1 1 1 1 1 2 2 1 1 1 2 2 2 2 2 2\nend\n",
+        "conc corpus_aba\ncfg kt=bytes n=100\nsetup put 6b 5858\nthread 1 get 6b\nthread 2 remove 6b\nthread 2 put 6b 5858\nsched 1 1 1 2 2 2 2 2 2 2 2 2 2 2 1 2 2 2 2 2 2 2 2 2 2 2 2 2 1 1 1\nend\n",
         "conc corpus_ckpt\ncfg kt=bytes n=1\nsetup put 6b31 5858\nthread 1 checkpoint\nthread 2 put 6b32 5959\nthread 3 get 6b31\nseed 5\nend\n",
     ]
 
